@@ -109,6 +109,9 @@ func (l *Listener) doHandshake(conn net.Conn) {
 
 	select {
 	case <-l.quit:
+		// The listener is shutting down, nobody will pick up this
+		// connection, so close it rather than leak the socket.
+		conn.Close()
 		return
 	default:
 	}
@@ -161,6 +164,7 @@ func (l *Listener) doHandshake(conn net.Conn) {
 
 	select {
 	case <-l.quit:
+		brontideConn.conn.Close()
 		return
 	default:
 	}
@@ -231,11 +235,14 @@ type maybeConn struct {
 	err  error
 }
 
-// acceptConn returns a connection that successfully performed a handshake.
+// acceptConn returns a connection that successfully performed a handshake. If
+// the listener is closed before the connection is picked up by Accept, the
+// connection is closed as nobody else holds a reference to it.
 func (l *Listener) acceptConn(conn *Conn) {
 	select {
 	case l.conns <- maybeConn{conn: conn}:
 	case <-l.quit:
+		conn.Close()
 	}
 }
 
